@@ -677,6 +677,60 @@ func isGoIdent(s string) bool {
 
 // dupGetterRule: R01.7 — a map keyed by the getter value and an error guarded by a read of that map,
 // in a function reachable from NewDefaultValidator.
+// countAtLeastTwo: on the given outcome, cond (a comparison of a count with a constant) means count >= 2.
+func countAtLeastTwo(cond ssa.Value, onTrue bool) bool {
+	bo, ok := cond.(*ssa.BinOp)
+	if !ok {
+		return false
+	}
+	op, l, r := bo.Op, bo.X, bo.Y
+	if _, isK := constInt(l); isK { // k OP x -> x OP' k
+		l, r = r, l
+		switch op {
+		case token.LSS:
+			op = token.GTR
+		case token.LEQ:
+			op = token.GEQ
+		case token.GTR:
+			op = token.LSS
+		case token.GEQ:
+			op = token.LEQ
+		}
+	}
+	_ = l
+	k, isK := constInt(r)
+	if !isK {
+		return false
+	}
+	if !onTrue {
+		switch op {
+		case token.LSS:
+			op = token.GEQ
+		case token.LEQ:
+			op = token.GTR
+		case token.GTR:
+			op = token.LEQ
+		case token.GEQ:
+			op = token.LSS
+		case token.EQL:
+			op = token.NEQ
+		case token.NEQ:
+			op = token.EQL
+		}
+	}
+	switch op {
+	case token.GTR:
+		return k == 1
+	case token.GEQ:
+		return k == 2
+	case token.NEQ:
+		return k == 1 // the lists are never empty
+	case token.EQL:
+		return k == 2 // a counter tested right after its increment
+	}
+	return false
+}
+
 func dupGetterRule(e *Env, rule string) {
 	r := e.R
 	root := e.P.Func(inputRel, "NewDefaultValidator")
@@ -710,7 +764,7 @@ func dupGetterRule(e *Env, rule string) {
 		}
 	}
 	walk(root)
-	found := ""
+	found, weak := "", ""
 	for f := range seen {
 		var maps []ssa.Value
 		allInstrs(f, func(_ *ssa.Function, ins ssa.Instruction) {
@@ -735,7 +789,12 @@ func dupGetterRule(e *Env, rule string) {
 				}
 				for _, m := range maps {
 					if condReadsMap(iff.Cond, m, 0) {
-						found = e.P.FuncKey(f)
+						onTrue := id.Succs[0].Dominates(s.call.Block()) && len(id.Succs[0].Preds) == 1
+						if countAtLeastTwo(iff.Cond, onTrue) {
+							found = e.P.FuncKey(f)
+						} else {
+							weak = fmt.Sprintf("the test %s does not mean 'used by two or more services' on the edge of the error", iff.Cond.String())
+						}
 					}
 				}
 			}
@@ -744,7 +803,11 @@ func dupGetterRule(e *Env, rule string) {
 	if found != "" {
 		r.Hold(rule, inputRel+"#duplicate-getter-detection", "equal getters are counted per getter value and reported in "+found)
 	} else {
-		r.Violate(rule, inputRel+"#duplicate-getter-detection", "no validator detects two services with the same getter: the generated file declares the method twice and does not compile", nil)
+		why := "no validator detects two services with the same getter: the generated file declares the method twice and does not compile"
+		if weak != "" {
+			why += " (" + weak + ")"
+		}
+		r.Violate(rule, inputRel+"#duplicate-getter-detection", why, nil)
 	}
 	e.R.Analysed["validator_functions_reachable"] = len(seen)
 }
